@@ -376,7 +376,12 @@ func k2ErrStr(e error) string {
 // It returns the blocked goroutines and false if exploration must not continue behind this state.
 func (c *k2Ctx) step(k *k2Sys, a k2Action, report bool, hist []int, op int) ([]qsched.GoroutineInfo, bool) {
 	if !c.checkC09 {
-		return k.do(a), true
+		blocked := k.do(a)
+		if a.Kind == "probe" && k.probeMutated && report {
+			c.viol("data-race/queue-modified-while-its-mutex-is-held", "addSpaces-Push-vs-plotterQueue.Delete",
+				"the plotter's addSpaces pushed a request into the plot queue ("+k.probeNote+"): Push/Empty/Size are the promoted, unlocked methods of the embedded prque, while plotterQueue.Delete (StopWS/RemoveWS/DeleteWS) pops every item and swaps the queue under that mutex - the two can run at the same time and corrupt the queue (a worker process of a thorough run died of a nil dereference in spacePlotter.func2 = addSpaces, while delete(a) ran beside a plotter draining the channel)", hist, op)
+		}
+		return blocked, true
 	}
 	before := k.wsStates()
 	usedBefore := make([]bool, len(k.model))
@@ -925,10 +930,11 @@ func k2Run(r *vk.Run, prop string, scenarios []k2Scenario, c09, c13 bool, rule s
 	}
 	os.Setenv("VERIF_K2_SOCK", sock)
 	pool := make(chan *k2Conn, n)
-	var live, accepted int32
+	var live, accepted, left int32 // left: workers that retired or died
 	allGone := make(chan struct{}) // closed when no worker is left (all connected ones retired or died, or all children exited)
 	var goneOnce sync.Once
 	leave := func() {
+		atomic.AddInt32(&left, 1)
 		if atomic.AddInt32(&live, -1) == 0 && atomic.LoadInt32(&accepted) == int32(n) {
 			goneOnce.Do(func() { close(allGone) })
 		}
@@ -973,6 +979,11 @@ func k2Run(r *vk.Run, prop string, scenarios []k2Scenario, c09, c13 bool, rule s
 			}
 			return res, true
 		}
+	}
+	var dump *os.File // diagnostic switch VERIF_K2_DUMPKEYS=<file>: every (key, history) the search sees
+	if p := os.Getenv("VERIF_K2_DUMPKEYS"); p != "" {
+		dump, _ = os.Create(p)
+		defer dump.Close()
 	}
 	coordDone := make(chan struct{})
 	var states, trans int64
@@ -1030,6 +1041,11 @@ func k2Run(r *vk.Run, prop string, scenarios []k2Scenario, c09, c13 bool, rule s
 					for _, o := range res.Ops {
 						ops = append(ops, id(o))
 					}
+					if dump != nil {
+						mu.Lock()
+						fmt.Fprintf(dump, "%s\t%v+%s\n", res.Key, j.Hist, j.Op)
+						mu.Unlock()
+					}
 					return res.Key, ops, res.Expand
 				}})
 			if !res.Complete {
@@ -1042,12 +1058,13 @@ func k2Run(r *vk.Run, prop string, scenarios []k2Scenario, c09, c13 bool, rule s
 				sc.Name, sc.Family, sc.Initial, sc.Cfg, sc.ChanCap, sc.MaxChan, sc.MaxInFlight, len(sc.Alphabet), sc.Horizon+1, res.States, res.Transitions, res.MaxDepth, res.PerLevel, fix))
 		}
 		// release the workers
-		for atomic.LoadInt32(&live) > 0 {
+		// (every one of the n children: one that connects late still has to be told)
+		for sent := int32(0); sent+atomic.LoadInt32(&left) < int32(n); {
 			select {
 			case w := <-pool:
 				b, _ := json.Marshal(k2Job{Done: true})
 				w.c.Write(append(b, '\n'))
-				atomic.AddInt32(&live, -1)
+				sent++
 			case <-allGone:
 				return
 			}
@@ -1157,9 +1174,19 @@ func TestVerifC13Chia(t *testing.T) {
 			if init == "RRR" || r.Quick() {
 				alpha = small(len(init))
 			}
-			add("b", init, "none", cap, d+cap, alpha)
+			depth := d + cap
+			if init == "RRR" && cap > 0 {
+				depth--
+			}
+			if r.Thorough() && cap == 2 {
+				depth = 7
+			}
+			add("b", init, "none", cap, depth, alpha)
 		}
 	}
+	// lock-discipline probe of the plot queue (see k2Sys.do, case "probe")
+	scs = append(scs, k2Scenario{Name: "b-RR-probe-queue-lock", Family: "b", Initial: "RR", Cfg: "none", ChanCap: 1, MaxChan: -1, Horizon: 2, MaxInFlight: 2,
+		Alphabet: append(k2Alphabet(2, nil, false, true, nil), k2Action{Kind: "probe", Name: "queue-lock", WS: -1}), Script: []string{"gate:idle", "probe:queue-lock"}})
 	if r.Thorough() {
 		// the finding at the production constant: the plotter has popped a request and is about to take
 		// the lock for step 1; 1024 plot requests fill the channel, request 1025 blocks holding the
